@@ -188,6 +188,7 @@ var pathPatternTemplates = []string{
 	"*",
 	"/a//b", "//", "//x/*", "*//*", "/a//*", "/a///b", "/x//",
 	"/a%2fb", "/a%2Fb/c", "/%2e/x", "/a%2fb/*", "/x/%*", "/%*/y", "/a%", "/a%2", "%2f*", "/a%2f*", "*%2f*", "/b%2fc//d", "/%*", "/a%2fb*c", "/sp%20ace", "/p%25c", "/%41bc", "/q/%*/r%2fs",
+	"/foo%2fbar/baz", "/dl/%*/report.pdf", "/files/a%2f", "%2fa", "/a%2f%2fb", "/x%2f*/end", "/k%20*z",
 	"/{x", "/a{b/*", "",
 }
 
@@ -312,6 +313,16 @@ func genPathCase(rng *core.Rand) string {
 	if !strings.HasPrefix(raw, "/") && !rng.Chance(1, 20) {
 		raw = "/" + raw
 	}
+	if strings.Contains(fromPat, "%") && rng.Chance(1, 2) {
+		// boundary positions of the lock-step comparator: an escape at the very end, at the very
+		// start, two adjacent ones, one next to an escape the pattern asks for
+		sp := boundarySpellings(raw, "")
+		if rng.Chance(1, 4) {
+			raw = sp[0]
+		} else if len(sp) > 1 {
+			raw = sp[1+rng.Intn(len(sp)-1)]
+		}
+	}
 	for k := rng.Intn(4); k > 0; k-- {
 		if r2, ok := mutate(rng, raw, rng.Pick([]string{"case", "hexcase", "pct", "slash", "dot", "dotdot"})); ok {
 			raw = r2
@@ -336,6 +347,13 @@ func genPathPair(rng *core.Rand) string {
 	raw, ok := mutate(rng, e1, kind)
 	if !ok {
 		raw = e1
+	}
+	if l, _ := parseList(f[1]); hasPct(l) && strings.HasPrefix(e1, "/") && rng.Chance(1, 2) {
+		// canonical spelling against a boundary spelling (escape at the end / start / adjacent)
+		kind = "pct"
+		sp := boundarySpellings(e1, "")
+		e1 = sp[0]
+		raw = sp[rng.Intn(len(sp))]
 	}
 	u, err := url.ParseRequestURI(raw)
 	if err != nil || u.RawQuery != "" || u.ForceQuery || u.Host != "" || u.Scheme != "" {
